@@ -1,20 +1,26 @@
 import Flowjaxv.Proofs.ArrTheory
+import Flowjaxv.Proofs.ArrGen
 import Flowjaxv.Proofs.Leaves
 /-!
 # C08 — combinators mean what their definitions say, for every shape and axis
 
-Property theorems only (lemmas: `Proofs/ArrLists.lean`, `Proofs/ArrTheory.lean`).  `Chain` and `Invert`
-are the definitions GENERATED from /repo (`Gen/Combinators.lean`); `Concatenate / Stack / Partial /
-Reshape / EmbedCondition` (and `Scan`, `Vmap` through their defining equivalences) are the hand model
-`Model/Arr.lean` + `Model/ArrExt.lean` over n-d arrays (= shape + row-major data), which the harness
-`tools/props/c08.py` runs against the real classes for ranks 0–3 and every axis, negative ones included.
+Property theorems only (lemmas: `Proofs/ArrLists.lean`, `Proofs/ArrTheory.lean`, `Proofs/ArrGen.lean`).  `Chain`
+and `Invert` are the definitions GENERATED from /repo (`Gen/Combinators.lean`).  `Concatenate / Stack / Partial /
+Reshape / EmbedCondition` exist twice: as the hand model `Model/Arr.lean` + `Model/ArrExt.lean` over n-d arrays
+(= shape + row-major data; §1–§6, §8 below; `Scan`, `Vmap` through their defining equivalences), and as the
+definitions GENERATED from `concatenate.py` / `utils.py` on every run (`Gen/ArrCombinators.lean`: the four methods
+of each class, `Concatenate.__init__`, `Stack.__init__`, `Stack._split_and_squeeze`, `Reshape.__init__`,
+`EmbedCondition.__init__`, the two shape properties), whose bodies call the primitive specs of `Model/ArrJnp.lean`.
+§10 proves generated = hand model for every rank, axis (negative included), number of children and child
+behaviour, and restates the key theorems on the generated definitions.  The harness `tools/props/c08.py` runs both
+against the real classes for ranks 0–3 and every axis, negative ones included.
 
 An axis `k` of an array of shape `s` is handled through the three-level view
 `O = ∏ s[:k]` blocks of `A = s[k]` rows of `I = ∏ s[k+1:]` entries (`Arr.view3`), so every theorem
 below holds for every rank, every axis, and every size (zeros included).
 `WS shape` = arrays carrying exactly that shape and `∏ shape` entries.
 -/
-open Gen Set Arr ArrComb
+open Gen Set Arr ArrComb ArrJnp
 
 namespace C08
 
@@ -403,5 +409,286 @@ theorem stack_instance :
   rcases hb with rfl | rfl <;>
   exact ArrComb.elementwise_lawful (shape := [3])
     (fun b hb => by rw [List.eq_of_mem_replicate hb]; exact Leaves.affine_lawful _ (by norm_num)) (by decide)
+
+
+/-! ## 10. The definitions GENERATED from `concatenate.py` / `utils.py` (`Gen/ArrCombinators.lean`)
+
+`g` is a generated object (a record of the Python fields), `s` the hand-model spec it denotes: `g.axis` (possibly
+negative) normalises to `s.axis` by NumPy's rule, `g.split_idxs = accumulate(sizes[:-1])`.  The constructors'
+theorems (`gen_*_ctor_*`) show that objects built by the generated `__init__` satisfy these hypotheses whenever the
+C13 constructor model accepts. -/
+set_option linter.unusedSectionVars false
+section generated
+variable {κ C α : Type} [Add α] [OfNat α 0] [Inhabited κ]
+
+/-- **generated `Concatenate` = hand model**, all four methods, every rank / axis / number of children, for
+children that return arrays of their own shape. -/
+theorem gen_concatenate_eq_model (g : Concatenate κ C α) (s : ConcatSpec)
+    (hax : s.axis < s.shape.length) (hsz : s.shape[s.axis] = s.sizes.sum)
+    (haxis : Arr.normAxis s.shape.length g.axis = some s.axis)
+    (hidx : g.split_idxs = ArrJnp.accumulate s.sizes.dropLast) (hne : s.sizes ≠ [])
+    (hlen : g.bijections.length = s.sizes.length)
+    (hb : ∀ j (h1 : j < g.bijections.length) (h2 : j < s.sizes.length), ∀ p ∈ WS (s.childShape s.sizes[j]), ∀ c,
+      (g.bijections[j].fwd p c).shape = s.childShape s.sizes[j] ∧ (g.bijections[j].inv p c).shape = s.childShape s.sizes[j]
+      ∧ (g.bijections[j].fwdLd p c).1.shape = s.childShape s.sizes[j]
+      ∧ (g.bijections[j].invLd p c).1.shape = s.childShape s.sizes[j])
+    {x : Arr κ} (hx : x ∈ WS s.shape) (c : C) :
+    g.transform x c = (concatenate s (g.bijections.map SBij.toBij)).fwd x c
+    ∧ g.inverse x c = (concatenate s (g.bijections.map SBij.toBij)).inv x c
+    ∧ g.transform_and_log_det x c = (concatenate s (g.bijections.map SBij.toBij)).fwdLd x c
+    ∧ g.inverse_and_log_det x c = (concatenate s (g.bijections.map SBij.toBij)).invLd x c := by
+  have hsh : ArrGen.ChildrenShaped s (ArrGen.kids g.bijections) :=
+    ArrGen.childrenShaped_of_index (by simpa [ArrGen.kids] using hlen) (fun j h1 h2 p hp c => by
+      have hj : j < g.bijections.length := by simpa [ArrGen.kids] using h1
+      simpa [ArrGen.kids] using hb j hj h2 p hp c)
+  have h := ArrGen.concatenate_eqOn ⟨hax, hsz⟩ ⟨haxis, hidx, hne⟩ hsh
+  exact ⟨h.fwd x hx c, h.inv x hx c, h.fwdLd x hx c, h.invLd x hx c⟩
+
+/-- **the generated `Concatenate` is a lawful bijection of the declared shape** (hypotheses of `concatenate_lawful`) -/
+theorem gen_concatenate_lawful (g : Concatenate κ C α) (s : ConcatSpec)
+    (hax : s.axis < s.shape.length) (hsz : s.shape[s.axis] = s.sizes.sum)
+    (haxis : Arr.normAxis s.shape.length g.axis = some s.axis)
+    (hidx : g.split_idxs = ArrJnp.accumulate s.sizes.dropLast) (hne : s.sizes ≠ [])
+    (hlen : g.bijections.length = s.sizes.length)
+    (hb : ∀ j (h1 : j < g.bijections.length) (h2 : j < s.sizes.length),
+      g.bijections[j].toBij.Lawful (WS (s.childShape s.sizes[j])) (WS (s.childShape s.sizes[j]))) :
+    g.toBij.Lawful (WS s.shape) (WS s.shape) :=
+  ArrGen.concatenate_gen_lawful ⟨hax, hsz⟩ ⟨haxis, hidx, hne⟩
+    ⟨by simpa [ArrGen.kids] using hlen, fun j h1 h2 => by
+      have hj : j < g.bijections.length := by simpa [ArrGen.kids] using h1
+      simpa [ArrGen.kids] using hb j hj h2⟩
+
+/-- **slicewise, in the code's own terms**: splitting the output with the very `jnp.array_split(·, split_idxs, axis)`
+the code applies to its input gives, part by part, the children's outputs on the input's parts. -/
+theorem gen_concatenate_slicewise (g : Concatenate κ C α) (s : ConcatSpec)
+    (hax : s.axis < s.shape.length) (hsz : s.shape[s.axis] = s.sizes.sum)
+    (haxis : Arr.normAxis s.shape.length g.axis = some s.axis)
+    (hidx : g.split_idxs = ArrJnp.accumulate s.sizes.dropLast) (hne : s.sizes ≠ [])
+    (hlen : g.bijections.length = s.sizes.length)
+    (hb : ∀ j (h1 : j < g.bijections.length) (h2 : j < s.sizes.length),
+      g.bijections[j].toBij.Lawful (WS (s.childShape s.sizes[j])) (WS (s.childShape s.sizes[j])))
+    {x : Arr κ} (hx : x ∈ WS s.shape) (c : C) :
+    arraySplit (g.transform x c) g.split_idxs g.axis
+        = List.zipWith (fun (b : SBij (Arr κ) C α) p => b.fwd p c) g.bijections (arraySplit x g.split_idxs g.axis)
+    ∧ arraySplit (g.inverse x c) g.split_idxs g.axis
+        = List.zipWith (fun (b : SBij (Arr κ) C α) p => b.inv p c) g.bijections (arraySplit x g.split_idxs g.axis)
+    ∧ arraySplit x g.split_idxs g.axis = s.parts x.data :=
+  have h := ArrGen.concatenate_gen_slicewise ⟨hax, hsz⟩ ⟨haxis, hidx, hne⟩
+    ⟨by simpa [ArrGen.kids] using hlen, fun j h1 h2 => by
+      have hj : j < g.bijections.length := by simpa [ArrGen.kids] using h1
+      simpa [ArrGen.kids] using hb j hj h2⟩ hx c
+  ⟨h.1, h.2, by rw [hidx]; exact ArrGen.arraySplit_eq_parts ⟨hax, hsz⟩ hne hx.1 haxis⟩
+
+/-- the returned log-det is the sum of the children's on the parts the code hands them — every input, no hypothesis -/
+theorem gen_concatenate_ld {κ C : Type} [Inhabited κ] (g : Concatenate κ C ℝ) (x : Arr κ) (c : C) :
+    (g.transform_and_log_det x c).2
+        = (List.zipWith (fun (b : SBij (Arr κ) C ℝ) p => (b.fwdLd p c).2) g.bijections (arraySplit x g.split_idxs g.axis)).sum
+    ∧ (g.inverse_and_log_det x c).2
+        = (List.zipWith (fun (b : SBij (Arr κ) C ℝ) p => (b.invLd p c).2) g.bijections (arraySplit x g.split_idxs g.axis)).sum := by
+  rw [List.sum_eq_foldl, List.sum_eq_foldl]
+  exact ArrGen.concatenate_gen_ld g x c
+
+/-- **the generated `Concatenate.__init__`**: whenever the C13 model of the constructor accepts the children's declared
+shapes, the declared `shape` / `cond_shape` are the C13 ones (so `jnp.concatenate`'s shape, `C13.concatenate_shape_spec`),
+the split points are `accumulate` of the children's sizes along the normalised axis, and every child's declared shape is
+the declared shape with the child's own size on the axis. -/
+theorem gen_concatenate_ctor (bs : List (SBij (Arr κ) C α)) (axis : Int) (sh : PyShape.Shape) (c : Option PyShape.Shape)
+    (h : ArgCheck.concatenateCtor (bs.map (·.shape)) (bs.map (·.cond_shape)) axis = .ok (sh, c)) :
+    ∃ ax, Arr.normAxis sh.length axis = some ax ∧ ax < sh.length
+      ∧ (Concatenate.init bs axis).shape = sh ∧ (Concatenate.init bs axis).cond_shape = c
+      ∧ (Concatenate.init bs axis).bijections = bs ∧ (Concatenate.init bs axis).axis = axis
+      ∧ (Concatenate.init bs axis).split_idxs = ArrJnp.accumulate (bs.map (fun b => shapeGet b.shape ax)).dropLast
+      ∧ sh[ax]? = some (bs.map (fun b => shapeGet b.shape ax)).sum
+      ∧ ∀ b ∈ bs, b.shape = sh.set ax (shapeGet b.shape ax) := by
+  obtain ⟨ax, h1, h2, h3, h4, h5, h6, h7⟩ := ArrGen.concatenate_init_spec bs axis h
+  exact ⟨ax, h6.axis, h5.axis_lt, h1, h2, h3, h4, h6.idxs, by rw [List.getElem?_eq_getElem h5.axis_lt]; exact congrArg some h5.axis_size, h7⟩
+
+/-- **end to end**: children lawful on arrays of their DECLARED shapes + a constructor call that C13 accepts ⇒ the object
+built by the generated `__init__`, through its generated methods, is a lawful bijection on arrays of its declared shape —
+declared shape agrees with what the methods accept and return. -/
+theorem gen_concatenate_ctor_lawful (bs : List (SBij (Arr κ) C α)) (axis : Int) (sh : PyShape.Shape)
+    (c : Option PyShape.Shape)
+    (h : ArgCheck.concatenateCtor (bs.map (·.shape)) (bs.map (·.cond_shape)) axis = .ok (sh, c))
+    (hb : ∀ b ∈ bs, b.toBij.Lawful (WS b.shape) (WS b.shape)) :
+    (Concatenate.init bs axis).toBij.Lawful (WS sh) (WS sh) := ArrGen.concatenate_ctor_lawful bs axis h hb
+
+/-- **generated `Stack` = hand model** (`jnp.split` + `squeeze`, children, `jnp.stack`), all four methods -/
+theorem gen_stack_eq_model (g : Stack κ C α) (s : ConcatSpec) (cs : List Nat)
+    (hax : s.axis < s.shape.length) (hk : s.shape[s.axis] = g.bijections.length)
+    (hsz : s.sizes = List.replicate g.bijections.length 1) (hcs : cs = s.shape.eraseIdx s.axis)
+    (haxis : Arr.normAxis s.shape.length g.axis = some s.axis) (hpos : 0 < g.bijections.length)
+    (hb : ∀ b ∈ g.bijections, ∀ q ∈ WS cs, ∀ c, (b.fwd q c).shape = cs ∧ (b.inv q c).shape = cs
+      ∧ (b.fwdLd q c).1.shape = cs ∧ (b.invLd q c).1.shape = cs)
+    {x : Arr κ} (hx : x ∈ WS s.shape) (c : C) :
+    g.transform x c = (stack s cs (g.bijections.map SBij.toBij)).fwd x c
+    ∧ g.inverse x c = (stack s cs (g.bijections.map SBij.toBij)).inv x c
+    ∧ g.transform_and_log_det x c = (stack s cs (g.bijections.map SBij.toBij)).fwdLd x c
+    ∧ g.inverse_and_log_det x c = (stack s cs (g.bijections.map SBij.toBij)).invLd x c := by
+  have hsh : ArrGen.StackShaped cs (ArrGen.kids g.bijections) := by
+    intro b hbm
+    obtain ⟨b', hb', rfl⟩ := List.mem_map.1 hbm
+    exact hb b' hb'
+  have h := ArrGen.stack_eqOn ⟨hax, hk, hsz, hcs⟩ ⟨haxis, hpos⟩ hsh
+  exact ⟨h.fwd x hx c, h.inv x hx c, h.fwdLd x hx c, h.invLd x hx c⟩
+
+theorem gen_stack_lawful (g : Stack κ C α) (s : ConcatSpec) (cs : List Nat)
+    (hax : s.axis < s.shape.length) (hk : s.shape[s.axis] = g.bijections.length)
+    (hsz : s.sizes = List.replicate g.bijections.length 1) (hcs : cs = s.shape.eraseIdx s.axis)
+    (haxis : Arr.normAxis s.shape.length g.axis = some s.axis) (hpos : 0 < g.bijections.length)
+    (hb : ∀ b ∈ g.bijections, b.toBij.Lawful (WS cs) (WS cs)) :
+    g.toBij.Lawful (WS s.shape) (WS s.shape) :=
+  ArrGen.stack_gen_lawful ⟨hax, hk, hsz, hcs⟩ ⟨haxis, hpos⟩ (fun b hbm => by
+    obtain ⟨b', hb', rfl⟩ := List.mem_map.1 hbm
+    exact hb b' hb')
+
+/-- **slice `j` of the output of the generated `Stack` is child `j` applied to slice `j` of the input**, the slices
+being the code's own `_split_and_squeeze` -/
+theorem gen_stack_slicewise (g : Stack κ C α) (s : ConcatSpec) (cs : List Nat)
+    (hax : s.axis < s.shape.length) (hk : s.shape[s.axis] = g.bijections.length)
+    (hsz : s.sizes = List.replicate g.bijections.length 1) (hcs : cs = s.shape.eraseIdx s.axis)
+    (haxis : Arr.normAxis s.shape.length g.axis = some s.axis) (hpos : 0 < g.bijections.length)
+    (hb : ∀ b ∈ g.bijections, b.toBij.Lawful (WS cs) (WS cs)) {x : Arr κ} (hx : x ∈ WS s.shape) (c : C) :
+    (g._split_and_squeeze (g.transform x c)).map Arr.data
+        = List.zipWith (fun (b : SBij (Arr κ) C α) p => (b.fwd p c).data) g.bijections (g._split_and_squeeze x)
+    ∧ (g._split_and_squeeze (g.inverse x c)).map Arr.data
+        = List.zipWith (fun (b : SBij (Arr κ) C α) p => (b.inv p c).data) g.bijections (g._split_and_squeeze x)
+    ∧ g._split_and_squeeze x = (s.parts x.data).map (fun p => ⟨cs, p.data⟩) :=
+  have h := ArrGen.stack_gen_slicewise ⟨hax, hk, hsz, hcs⟩ ⟨haxis, hpos⟩ (fun b hbm => by
+    obtain ⟨b', hb', rfl⟩ := List.mem_map.1 hbm
+    exact hb b' hb') hx c
+  ⟨h.1, h.2, ArrGen.split_and_squeeze_eq ⟨hax, hk, hsz, hcs⟩ ⟨haxis, hpos⟩ hx.1⟩
+
+theorem gen_stack_ld {κ C : Type} [Inhabited κ] (g : Stack κ C ℝ) (x : Arr κ) (c : C) :
+    (g.transform_and_log_det x c).2
+        = (List.zipWith (fun (b : SBij (Arr κ) C ℝ) p => (b.fwdLd p c).2) g.bijections (g._split_and_squeeze x)).sum
+    ∧ (g.inverse_and_log_det x c).2
+        = (List.zipWith (fun (b : SBij (Arr κ) C ℝ) p => (b.invLd p c).2) g.bijections (g._split_and_squeeze x)).sum := by
+  rw [List.sum_eq_foldl, List.sum_eq_foldl]
+  exact ArrGen.stack_gen_ld g x c
+
+/-- **the generated `Stack.__init__`** + end to end: declared shape / cond_shape are the C13 ones (`jnp.stack`'s shape,
+`C13.stack_shape_spec`, negative axes included) and the built object is lawful on arrays of that shape. -/
+theorem gen_stack_ctor_lawful (bs : List (SBij (Arr κ) C α)) (axis : Int) (sh : PyShape.Shape) (c : Option PyShape.Shape)
+    (h : ArgCheck.stackCtor (bs.map (·.shape)) (bs.map (·.cond_shape)) axis = .ok (sh, c))
+    (hb : ∀ b ∈ bs, b.toBij.Lawful (WS b.shape) (WS b.shape)) :
+    (Stack.init bs axis).shape = sh ∧ (Stack.init bs axis).cond_shape = c ∧ (Stack.init bs axis).bijections = bs
+    ∧ (Stack.init bs axis).axis = axis ∧ (Stack.init bs axis).toBij.Lawful (WS sh) (WS sh) := by
+  obtain ⟨ax, cs, h1, h2, h3, h4, -⟩ := ArrGen.stack_init_spec bs axis h
+  exact ⟨h1, h2, h3, h4, ArrGen.stack_ctor_lawful bs axis h hb⟩
+
+/-- **generated `Partial` = hand model** on every array carrying the declared shape; `idxs` enters resolved to the
+flat positions it selects (`x[idxs]` = gather, `x.at[idxs].set(y)` = scatter) -/
+theorem gen_partial_eq_model (g : Partial κ C α) {x : Arr κ} (hx : x.shape = g.shape) (c : C) :
+    g.transform x c = (partialB g.shape g.idxs.sub g.idxs.pos g.bijection.toBij).fwd x c
+    ∧ g.inverse x c = (partialB g.shape g.idxs.sub g.idxs.pos g.bijection.toBij).inv x c
+    ∧ g.transform_and_log_det x c = (partialB g.shape g.idxs.sub g.idxs.pos g.bijection.toBij).fwdLd x c
+    ∧ g.inverse_and_log_det x c = (partialB g.shape g.idxs.sub g.idxs.pos g.bijection.toBij).invLd x c :=
+  have h := ArrGen.partial_eqOn g
+  ⟨h.fwd x hx c, h.inv x hx c, h.fwdLd x hx c, h.invLd x hx c⟩
+
+theorem gen_partial_lawful (g : Partial κ C α) (hb : g.bijection.toBij.Lawful (WS g.idxs.sub) (WS g.idxs.sub))
+    (hnd : g.idxs.pos.Nodup) (hr : ∀ p ∈ g.idxs.pos, p < Arr.prod g.shape) (hl : g.idxs.pos.length = Arr.prod g.idxs.sub) :
+    g.toBij.Lawful (WS g.shape) (WS g.shape) := by
+  have he := ArrGen.partial_eqOn g
+  refine ArrGen.EqOn.lawful ⟨fun x hx c => he.fwd x hx.1 c, fun x hx c => he.inv x hx.1 c,
+    fun x hx c => he.fwdLd x hx.1 c, fun x hx c => he.invLd x hx.1 c⟩ (ArrComb.partial_lawful hb hnd hr hl) ?_ ?_
+  · intro x c; show (ArrJnp.atSet x g.idxs _) = ArrJnp.atSet x g.idxs _; rw [hb.fwdLd_fst]
+  · intro x c; show (ArrJnp.atSet x g.idxs _) = ArrJnp.atSet x g.idxs _; rw [hb.invLd_fst]
+
+/-- **the generated `Partial` changes only the indexed entries** — every input, no hypothesis; the shape is the input's -/
+theorem gen_partial_frame (g : Partial κ C α) {i : Nat} (hi : i ∉ g.idxs.pos) (x : Arr κ) (c : C) :
+    (g.transform x c).data[i]? = x.data[i]? ∧ (g.inverse x c).data[i]? = x.data[i]?
+    ∧ (g.transform x c).shape = x.shape ∧ (g.inverse x c).shape = x.shape :=
+  ⟨Arr.scatter_frame hi _ _, Arr.scatter_frame hi _ _, rfl, rfl⟩
+
+/-- on the indexed entries the generated `Partial` is the wrapped bijection applied to `x[idxs]` -/
+theorem gen_partial_indexed (g : Partial κ C α) (hb : g.bijection.toBij.Lawful (WS g.idxs.sub) (WS g.idxs.sub))
+    (hnd : g.idxs.pos.Nodup) (hr : ∀ p ∈ g.idxs.pos, p < Arr.prod g.shape) (hl : g.idxs.pos.length = Arr.prod g.idxs.sub)
+    {x : Arr κ} (hx : x ∈ WS g.shape) (c : C) :
+    getIdx (g.transform x c) g.idxs = g.bijection.fwd (getIdx x g.idxs) c
+    ∧ (g.transform_and_log_det x c).2 = (g.bijection.fwdLd (getIdx x g.idxs) c).2 := by
+  have hg : getIdx x g.idxs ∈ WS g.idxs.sub := mk_mem_WS (by simp [hl])
+  have hy := hb.maps _ hg c
+  refine ⟨?_, rfl⟩
+  show (⟨g.idxs.sub, gather g.idxs.pos (scatter g.idxs.pos x.data _)⟩ : Arr κ) = _
+  rw [Arr.gather_scatter hnd (by rw [hx.2]; exact hr) (by rw [hy.2, hl])]
+  exact WS.eta hy
+
+/-- **generated `Reshape` = hand model** (the point is re-presented on the wrapped shape and back, data untouched)
+composed with the re-presentation of the condition — as records, every input.  The condition keeps its data; it is
+untouched when `cond_shape` is None and carries the wrapped `cond_shape` otherwise. -/
+theorem gen_reshape_eq_model (g : Reshape κ α) :
+    g.toBij = embed (ArrGen.condRe g) (reshape g.shape g.bijection.shape g.bijection.toBij)
+    ∧ (∀ c, (ArrGen.condRe g c).data = c.data) ∧ (g.cond_shape = none → ∀ c, ArrGen.condRe g c = c)
+    ∧ (∀ s i c, g.cond_shape = some s → g.bijection.cond_shape = some i → ArrGen.condRe g c = ⟨i, c.data⟩) :=
+  ⟨ArrGen.reshape_eq g, fun c => (ArrGen.condRe_data g c).1, fun h c => (ArrGen.condRe_data g c).2.1 h,
+   fun s i c h1 h2 => (ArrGen.condRe_data g c).2.2 s i h1 h2⟩
+
+theorem gen_reshape_lawful (g : Reshape κ α) (hb : g.bijection.toBij.Lawful (WS g.bijection.shape) (WS g.bijection.shape))
+    (hp : Arr.prod g.shape = Arr.prod g.bijection.shape) : g.toBij.Lawful (WS g.shape) (WS g.shape) := by
+  rw [ArrGen.reshape_eq]; exact ArrComb.embed_lawful _ (ArrComb.reshape_lawful hb hp)
+
+/-- **the generated `Reshape.__init__`** (defaults "unchanged") + end to end, whenever C13's `reshapeCtor` accepts -/
+theorem gen_reshape_ctor_lawful (b : SBij (Arr κ) (Arr κ) α) (shape? cond? : Option PyShape.Shape) (sh : PyShape.Shape)
+    (c : Option PyShape.Shape) (h : ArgCheck.reshapeCtor b.shape b.cond_shape shape? cond? = .ok (sh, c))
+    (hb : b.toBij.Lawful (WS b.shape) (WS b.shape)) :
+    (Reshape.init b shape? cond?).shape = sh ∧ (Reshape.init b shape? cond?).cond_shape = c
+    ∧ Arr.prod sh = Arr.prod b.shape ∧ (c.isSome → b.cond_shape.isSome)
+    ∧ (Reshape.init b shape? cond?).toBij.Lawful (WS sh) (WS sh) := by
+  obtain ⟨h1, h2, -, h4, h5⟩ := ArrGen.reshape_init_spec b shape? cond? h
+  exact ⟨h1, h2, h4, h5, ArrGen.reshape_ctor_lawful b shape? cond? h hb⟩
+
+/-- **generated `EmbedCondition` = hand model** (as records), its `__init__` stores its arguments, its `shape` is the
+wrapped bijection's and the generated `Partial.cond_shape` is the wrapped bijection's -/
+theorem gen_embed_eq_model {C' : Type} (g : EmbedCondition κ C C' α) (b : SBij (Arr κ) C α) (net : C' → C) (raw : List Nat)
+    (p : Partial κ C α) :
+    g.toBij = embed g.embedding_net g.bijection.toBij
+    ∧ (EmbedCondition.init b net raw : EmbedCondition κ C C' α) = ⟨b, raw, net⟩
+    ∧ g.shape_prop = g.bijection.shape ∧ p.cond_shape_prop = p.bijection.cond_shape := ⟨rfl, rfl, rfl, rfl⟩
+
+theorem gen_embed_lawful {C' : Type} (g : EmbedCondition κ C C' α) {D E : Set (Arr κ)}
+    (hb : g.bijection.toBij.Lawful D E) : g.toBij.Lawful D E := by
+  rw [ArrGen.embed_eq]; exact ArrComb.embed_lawful _ hb
+
+end generated
+
+/-! ### non-vacuity on the generated definitions (negative axes) -/
+
+/-- the generated constructor on children of declared shapes (2,1) and (2,2), axis −1: shape (2,3), split point (1,),
+and the built object is lawful (children: elementwise Affine) -/
+theorem gen_concatenate_instance :
+    let kids : List (SBij (Arr ℝ) Unit ℝ) :=
+      [SBij.ofBij (elementwise (List.replicate 2 ((Affine.mk 1 2 : Affine ℝ).toBij : Bij ℝ Unit ℝ))) [2, 1] none,
+       SBij.ofBij (elementwise (List.replicate 4 ((Affine.mk (-1) (-3) : Affine ℝ).toBij : Bij ℝ Unit ℝ))) [2, 2] none]
+    (Concatenate.init kids (-1)).shape = [2, 3] ∧ (Concatenate.init kids (-1)).split_idxs = [1]
+    ∧ (Concatenate.init kids (-1)).toBij.Lawful (WS [2, 3]) (WS [2, 3]) := by
+  intro kids
+  refine ⟨by decide, by decide, gen_concatenate_ctor_lawful kids (-1) [2, 3] none (by decide) ?_⟩
+  intro b hb
+  simp only [kids, List.mem_cons, List.not_mem_nil, or_false] at hb
+  rcases hb with rfl | rfl
+  · exact ArrComb.elementwise_lawful (shape := [2, 1])
+      (fun b hb => by rw [List.eq_of_mem_replicate hb]; exact Leaves.affine_lawful _ (by norm_num)) (by decide)
+  · exact ArrComb.elementwise_lawful (shape := [2, 2])
+      (fun b hb => by rw [List.eq_of_mem_replicate hb]; exact Leaves.affine_lawful _ (by norm_num)) (by decide)
+
+/-- the generated methods evaluated (over ℕ): `Concatenate(axis=-1)` sends column 0 through child 0 and columns 1–2
+through child 1; `Stack(axis=-1)` of two vectors of 3 interleaves; `Partial` touches positions {1,3} only. -/
+theorem gen_eval_instance :
+    let sh (k : Nat) : Bij Nat Unit Nat := ⟨fun x _ => x + k, fun y _ => y - k, fun x _ => (x + k, 1), fun y _ => (y - k, 2)⟩
+    let cat := Concatenate.init [SBij.ofBij (elementwise (List.replicate 2 (sh 10))) [2, 1] none,
+        SBij.ofBij (elementwise (List.replicate 4 (sh 20))) [2, 2] none] (-1)
+    let stk := Stack.init [SBij.ofBij (elementwise (List.replicate 3 (sh 10))) [3] none,
+        SBij.ofBij (elementwise (List.replicate 3 (sh 20))) [3] none] (-1)
+    let par : Partial Nat Unit Nat := ⟨SBij.ofBij (elementwise (List.replicate 2 (sh 10))) [2] none, ⟨[2], [1, 3]⟩, [4]⟩
+    (cat.transform_and_log_det ⟨[2, 3], [1, 2, 3, 4, 5, 6]⟩ ()).1.data = [11, 22, 23, 14, 25, 26]
+    ∧ (cat.transform_and_log_det ⟨[2, 3], [1, 2, 3, 4, 5, 6]⟩ ()).1.shape = [2, 3]
+    ∧ (cat.transform_and_log_det ⟨[2, 3], [1, 2, 3, 4, 5, 6]⟩ ()).2 = 6
+    ∧ (cat.inverse ⟨[2, 3], [11, 22, 23, 14, 25, 26]⟩ ()).data = [1, 2, 3, 4, 5, 6]
+    ∧ stk.shape = [3, 2]
+    ∧ (stk.transform ⟨[3, 2], [1, 2, 3, 4, 5, 6]⟩ ()).data = [11, 22, 13, 24, 15, 26]
+    ∧ (stk.transform ⟨[3, 2], [1, 2, 3, 4, 5, 6]⟩ ()).shape = [3, 2]
+    ∧ (stk.inverse_and_log_det ⟨[3, 2], [11, 22, 13, 24, 15, 26]⟩ ()).2 = 12
+    ∧ (par.transform ⟨[4], [1, 2, 3, 4]⟩ ()).data = [1, 12, 3, 14] := by decide
 
 end C08
